@@ -3,9 +3,10 @@
 //
 // The driver's environment is the string one, so an int n >= 0 is shipped in unary: the byte string "x"*n.
 // Min(k) / Max(k) are then the length checks `min k` / `max k`, and an Overwrite is one of the two members of
-// the harness' callback family that keep a string in unary (drop the first byte, reverse). Refinements are left to
-// the string family: ZodIntegerTyped.Refine decides about nil by the receiver's IsNilable() at attachment time,
-// which is not the string rule the model transcribes.
+// the harness' callback family that keep a string in unary (drop the first byte, reverse). Refinements (round 4b) are
+// the harness' predicate family evaluated on the unary string; ZodIntegerTyped.Refine decides about nil by the
+// receiver's IsNilable() at attachment time - recipes attach checks to the bare constructor, so a refinement always
+// reports nil, which is the model's rule with ctorPtr = false (what the driver uses for `hist int`).
 package main
 
 import (
@@ -14,6 +15,7 @@ import (
 	"strings"
 
 	"github.com/kaptinlin/gozod"
+	"github.com/kaptinlin/gozod/core"
 
 	"verifharness/hx"
 )
@@ -37,6 +39,9 @@ func buildInt(ctorPtr bool, cs []chk) any {
 				s = s.Max(int64(c.n), msg(pos))
 			case "ow":
 				s = s.Overwrite(owf(c.k))
+			case "ref":
+				k := c.k
+				s = s.Refine(func(v int) bool { return customPred(k, unary(v)) }, core.CustomParams{Error: msg(pos), Abort: c.abort})
 			}
 		}
 		return s
@@ -50,17 +55,25 @@ func buildInt(ctorPtr bool, cs []chk) any {
 			s = s.Max(int64(c.n), msg(pos))
 		case "ow":
 			s = s.Overwrite(owf(c.k))
+		case "ref":
+			k := c.k
+			s = s.Refine(func(v int) bool { return customPred(k, unary(v)) }, core.CustomParams{Error: msg(pos), Abort: c.abort})
 		}
 	}
 	return s
 }
 
 func genCheckInt(r *hx.Rng, n int) chk {
-	switch r.Intn(3) {
+	switch r.Intn(5) {
 	case 0:
 		return chk{kind: "min", n: max(0, n-1+r.Intn(3))}
 	case 1:
 		return chk{kind: "max", n: max(0, n-1+r.Intn(3))}
+	case 2, 3:
+		// a refinement: on nil (Optional / Nilable / typed nil pointer) this is where Parse and StrictParse used to part.
+		// ZodIntegerTyped.Refine lets nil pass only when the RECEIVER was nilable when the check was attached
+		// (types/integer.go:450-453); recipes attach the checks to the bare constructor, so a refinement reports nil.
+		return chk{kind: "ref", k: r.Intn(6), abort: r.Chance(35)}
 	}
 	return chk{kind: "ow", k: hx.Pick(r, []int{1, 2, 5, 6})}
 }
